@@ -38,6 +38,8 @@ var kinds = map[string][]string{
 	"BF": {"exec hpid pidfile 0 30 &", "waitfile pidfile", "recordpid pidfile", "bad"},
 	"BW": {"exec hexit 3 &", "exec hpid pidfile 0 30 &", "waitfile pidfile", "recordpid pidfile", "wait"},
 	"BS": {"exec hpid pidfile 0 30 &", "waitfile pidfile", "recordpid pidfile", "skip"},
+	"BN": {"exec hexit 0 &first&", "exec hpid pidfile 0 30 &", "exec hpid pidfile2 0 30 &", "waitfile pidfile", "recordpid pidfile", "waitfile pidfile2", "recordpid pidfile2", "wait first", "snapshot"},
+	"BM": {"exec hpid pidfile 0 30 &a&", "exec hpid pidfile2 0 30 &", "exec hexit 0 &b&", "exec hpid pidfile3 0 30 &", "waitfile pidfile", "recordpid pidfile", "waitfile pidfile2", "recordpid pidfile2", "waitfile pidfile3", "recordpid pidfile3", "wait b"},
 	"R":  {"mkdir ro/sub", "cp f ro/sub/f", "chmod 555 ro/sub", "chmod 555 ro", "snapshot"},
 	"X":  {"env PATH=/nonexistent", "[exec:hexit] ok", "snapshot"},
 	"Y":  {"[exec:hexit] ok", "snapshot"},
@@ -481,7 +483,7 @@ func scenarios(th bool) []scenario {
 	pairs := [][]string{
 		{"P", "F"}, {"P", "K"}, {"P", "T"}, {"F", "K"}, {"P", "P"}, {"F", "F"}, {"E", "P"}, {"E", "F"},
 		{"P", "R"}, {"R", "F"}, {"R", "R"}, {"D", "F"}, {"D", "K"}, {"DA", "P"}, {"D", "T"},
-		{"B", "P"}, {"BF", "P"}, {"BW", "P"}, {"BS", "P"}, {"B", "B"},
+		{"B", "P"}, {"BF", "P"}, {"BW", "P"}, {"BS", "P"}, {"B", "B"}, {"BN", "P"}, {"BM", "F"},
 		{"X", "Y"}, {"Y", "X"},
 	}
 	for _, p := range pairs {
